@@ -28,7 +28,7 @@ fixtab = "\n".join(f"| `{l.split(' ',1)[0]}` | {l.split(' ',1)[1]} |" for l in f
 tpl = re.sub(r"\| commit \| what \|\n\|---\|---\|\n(?:\|.*\|\n)+", "| commit | what |\n|---|---|\n" + fixtab + "\n", tpl)
 
 rows = []
-missed1 = []; nfi1 = []; missed3 = []; nfi3 = []; missed4 = []; nfi4 = []; missed5 = []; nfi5 = []; missed6 = []; nfi6 = []
+missed1 = []; nfi1 = []; missed3 = []; nfi3 = []; missed4 = []; nfi4 = []; missed5 = []; nfi5 = []; missed6 = []; nfi6 = []; missed7 = []; nfi7 = []
 for f in sorted(glob.glob(V + '/seeded/*/meta.json')):
     m = json.load(open(f))
     ch = re.sub(r'^(Change|C\d\d change|#+)\s*\d*\s*[-:–—.]?\s*', '', m['change']).strip()
@@ -42,7 +42,10 @@ for f in sorted(glob.glob(V + '/seeded/*/meta.json')):
         first = 'caught'
     else:
         first = 'caught' if fr['concrete_failing_input_found'] else ('caught, no input' if fr['detected'] else 'missed')
-    if m.get('round') == 6:
+    if m.get('round') == 7:
+        if first == 'missed': missed7.append(m['id'])
+        if first == 'caught, no input': nfi7.append(m['id'])
+    elif m.get('round') == 6:
         if first == 'missed': missed6.append(m['id'])
         if first == 'caught, no input': nfi6.append(m['id'])
     elif m.get('round') == 5:
@@ -67,7 +70,7 @@ for f in sorted(glob.glob(V + '/seeded/*/meta.json')):
         stren.append(f"* **{m['id']}** – {sw}")
 seeded = f'''### 13.7 Seeded breaking changes and which checks catch them
 
-Two hundred and forty changes, twelve per property, in six rounds.  Each was written by a fresh sub-agent that saw
+Two hundred and eighty changes, fourteen per property, in seven rounds.  Each was written by a fresh sub-agent that saw
 only the text of one property and a scratch worktree (nothing from /verif), was asked for a
 plausible maintainer edit that needs something specific to manifest, and was confirmed by hand in
 a scratch worktree: applies to HEAD, builds, the whole existing suite passes, the demonstration
@@ -144,8 +147,19 @@ with a concrete failing input, {len(nfi6)} only as a broken obligation ({', '.jo
 ({', '.join(missed6)}): strings of white space only as conditions, a struct that implements
 `fmt.Stringer`, and nil slices / nil maps (which print like empty ones; only their length, their
 iteration or `@dump` tell).  Writing the family for types with methods exposed a defect of the
-unchanged tree (named scalar types, fix `20fdb84`).  Now all two hundred and forty are reported by
-the quick check of their own property with a concrete failing input as replay.
+unchanged tree (named scalar types, fix `20fdb84`).
+
+Round 7 (ids `-13`, `-14`) repeated the plain request and added: not the first, most central spot — at
+least one change in a helper, a constructor, a configuration or error path, and at least one about a
+clause the statement mentions only in passing.  {40 - len(missed7) - len(nfi7)} of 40 were caught at once with a concrete failing
+input, {len(nfi7)} only as a broken obligation and {len(missed7)} were missed ({', '.join(missed7)}): a comment
+between two slots of a use, a printed array whose last element ends in a comma or a blank, an unknown
+component written in a *layout* and reported with the page's path, `Response` writing the error details
+into the caller's data map, a syntax error of a component file reported at its place of use, and function
+names with digits refused at registration.  Two of the six were oracle weaknesses of mine (the data map
+was only compared after single evaluations; a faulty file counted as identified by *any* template path),
+four were inputs no generator wrote.  Now all two hundred and eighty are reported by the quick check of
+their own property with a concrete failing input as replay.
 
 What was added for the ones not caught (or caught without an input) at first:
 
